@@ -107,6 +107,14 @@ def oracle_one(spec, key, theta, a, integrators=None):
         return "integrate raised %s" % r[1], det
     if not (abs(r[1] - ref) <= TOL):   # also catches nan
         return "integrate returned %r, the integral of g(theta*F(t/a)) over [0,a] is %r (difference %.3g > %g)" % (r[1], ref, abs(r[1] - ref) if r[1] == r[1] else float("nan"), TOL), det
+    if spec[0] in ("const", "constnum"):
+        # the shipped constant pulses: also against the object's OWN parametrisation (the lookup route never calls it)
+        import scipy.integrate
+        Fobj = pulse.get_parametrization()
+        ref2 = scipy.integrate.quad(lambda t: G[key](theta * Fobj(t / a)), 0.0, a, epsabs=1e-13, epsrel=1e-13, limit=2000)[0]
+        if not (abs(r[1] - ref2) <= TOL):
+            det["reference_own_parametrisation"] = ref2
+            return "integrate returned %r, but with the pulse object's own parametrisation the integral of g(theta*F(t/a)) is %r" % (r[1], ref2), det
     w = run_impl(I, key, theta, a)     # warm
     if hexf(w[1]) != hexf(r[1]):
         return "cached value %r differs from the first evaluation %r" % (w[1], r[1]), det
